@@ -55,6 +55,7 @@ func (p *e2eC09Peer) kind() refmodel.C09Kind {
 func e2eC09SimSpec(p *refmodel.C09Peer) simPeerSpec {
 	kind := map[refmodel.C09Kind]simPeerKind{refmodel.C09EBGP: simEBGP, refmodel.C09IBGP: simIBGP, refmodel.C09RRClient: simRRClient, refmodel.C09RSClient: simRSClient}[p.Kind]
 	return simPeerSpec{Kind: kind, Addr: p.Addr.String(), AS: p.AS, ID: p.RouterID.String(), V6: true,
+		SpeakerMod: func(c *simSpeakerConf) { c.Local = p.LocalAddr.String() },
 		Extra: func(ap *api.Peer) {
 			ap.Conf.LocalAsn = p.LocalASOverride
 			if p.Negotiated {
@@ -184,6 +185,9 @@ type e2eC09Scenario struct {
 	rt    *refmodel.C09Router
 	n     *simNet
 	peers []*e2eC09Peer // index 0 is the API
+	// only != nil: second phase, judge only these targets (re-established on another local address) and
+	// skip the inbound half (already judged)
+	only map[string]bool
 }
 
 func (sc *e2eC09Scenario) clusterIDs() []netip.Addr {
@@ -220,6 +224,11 @@ func e2eC09GenPeers(r *rand.Rand, rt *refmodel.C09Router) []*e2eC09Peer {
 		p := refmodel.C09GenPeer(r, rt, k, i+1)
 		p.Addr = netip.AddrFrom4([4]byte{10, 0, 0, byte(2 + i)})
 		p.LocalAddr = netip.MustParseAddr(simLocalAddr)
+		if i%2 == 1 && r.IntN(2) == 0 {
+			// an IPv6 session (both families are carried on every session)
+			p.Addr = netip.MustParseAddr(fmt.Sprintf("2001:db8::%x", 2+i))
+			p.LocalAddr = netip.MustParseAddr("2001:db8::1")
+		}
 		if i > 0 && kinds[i-1] == k {
 			prev := specs[i-1]
 			switch r.IntN(6) {
@@ -371,6 +380,64 @@ func e2eC09Scenario1(t *testing.T, rec *vlib.Rec, idx int) {
 			reached += sc.judge(src, s, views, global, rsLocal)
 		}
 	}
+	// ---- second phase: some neighbours lose their session and the same speaker (same AS, router id, neighbour
+	// address) comes back over another local address of the router; what it is sent then is judged against
+	// THIS session's local address
+	{
+		order := r.Perm(len(sc.peers) - 1)
+		nre := 2 + r.IntN(2)
+		from := map[string]int{}
+		sc.only = map[string]bool{}
+		var moved []*e2eC09Peer
+		for _, k := range order[:nre] {
+			q := sc.peers[1+k]
+			q.sp.mu.Lock()
+			from[q.name] = len(q.sp.rx)
+			q.sp.mu.Unlock()
+			q.sp.close()
+			moved = append(moved, q)
+			sc.only[q.name] = true
+		}
+		synctest.Wait()
+		for _, q := range moved {
+			nl := netip.MustParseAddr(fmt.Sprintf("10.0.%d.1", 8+r.IntN(2)))
+			if q.spec.Addr.Is6() {
+				nl = netip.MustParseAddr(fmt.Sprintf("2001:db8:%x::1", 0xb0+r.IntN(2)))
+			}
+			q.spec.LocalAddr = nl
+			q.sp.conf.Local = nl.String()
+			if err := q.sp.bringUp(40); err != nil {
+				rec.Inconclusive("e2e c09: re-establish: " + err.Error())
+				return
+			}
+		}
+		synctest.Wait()
+		views2 := map[string]map[simRouteKey]*e2eRoute{}
+		for _, q := range moved {
+			ups, problems := e2eDecodeRxFrom(q.sp, from[q.name])
+			for _, pr := range problems {
+				rec.Violation("e2e:c09:wire:malformed-message:"+q.kind().String(), "a message sent to "+q.name+" (re-established session) is malformed: "+pr, sc.witness(map[string]any{"peer": q.name, "rx": e2eRxLog(q.sp, 6)}))
+			}
+			views2[q.name], _ = e2eApply(ups)
+			rec.Count("e2e:c09:rehomed:sessions:"+q.kind().String(), 1)
+			if q.spec.Addr.Is6() {
+				rec.Count("e2e:c09:rehomed:sessions:ipv6", 1)
+			} else {
+				rec.Count("e2e:c09:rehomed:sessions:ipv4", 1)
+			}
+		}
+		for _, src := range sc.peers {
+			if sc.only[src.name] {
+				continue // its routes went away with its first session
+			}
+			for _, s := range src.routes {
+				n2 := sc.judge(src, s, views2, global, rsLocal)
+				reached += n2
+				rec.Count("e2e:c09:rehomed:routes_reached", n2)
+			}
+		}
+		sc.only = nil
+	}
 	if reached > 0 {
 		rec.Count("e2e:c09:nontrivial_scenarios", 1)
 		rec.Nontrivial("e2e-c09|" + vlib.Hash(strings.Join(shape, "|")))
@@ -465,46 +532,58 @@ func (sc *e2eC09Scenario) judge(src *e2eC09Peer, s *e2eC09Sent, views map[string
 		rec.Inconclusive(fmt.Sprintf("e2e c09: case %d: could not announce %s from %s: %v", sc.idx, s.key.Prefix, src.name, s.sentErr))
 		return 0
 	}
-	rec.Count("e2e:c09:routes_announced", 1)
-	rec.Count("e2e:c09:inbound:"+s.inRule, 1)
-	if s.reject == refmodel.C09Either {
-		return 0
-	}
-	// ---- is the route in use
-	used := false
-	if sk == refmodel.C09RSClient {
-		for name, tbl := range rsLocal {
-			if name != src.name && len(tbl[s.key.Prefix]) > 0 {
-				used = true
-			}
+	if sc.only != nil {
+		if s.reject != refmodel.C09MustNot {
+			return 0
 		}
 	} else {
-		used = len(global[s.key.Prefix]) > 0
-	}
-	if s.reject == refmodel.C09Must {
-		holders := []string{}
-		for name, v := range views {
-			if _, ok := v[s.key]; ok {
-				holders = append(holders, name)
-			}
-		}
-		sort.Strings(holders)
-		if used || len(holders) > 0 {
-			rec.Violation("e2e:c09:"+sk.String()+"->rib:"+s.inRule+"-used", fmt.Sprintf("a route with %s received from %s (%s) is in the Loc-RIB: %v, advertised to: %v", s.inRule, src.name, sk, used, holders), base(nil))
-		}
-		return 0
-	}
-	if !used {
-		if sk == refmodel.C09RSClient {
-			// a route-server client's route that no other client may take (AS loop towards each) is in no view; judged per target below
-		} else {
-			rec.Violation("e2e:c09:"+sk.String()+"->rib:wrongly-rejected:"+s.inRule, fmt.Sprintf("a route without loop indication from %s (%s) is not in the Loc-RIB", src.name, sk), base(nil))
+		rec.Count("e2e:c09:routes_announced", 1)
+		rec.Count("e2e:c09:inbound:"+s.inRule, 1)
+		if s.reject == refmodel.C09Either {
 			return 0
+		}
+		// ---- is the route in use
+		used := false
+		if sk == refmodel.C09RSClient {
+			for name, tbl := range rsLocal {
+				if name != src.name && len(tbl[s.key.Prefix]) > 0 {
+					used = true
+				}
+			}
+		} else {
+			used = len(global[s.key.Prefix]) > 0
+		}
+		if s.reject == refmodel.C09Must {
+			holders := []string{}
+			for name, v := range views {
+				if _, ok := v[s.key]; ok {
+					holders = append(holders, name)
+				}
+			}
+			sort.Strings(holders)
+			if used || len(holders) > 0 {
+				rec.Violation("e2e:c09:"+sk.String()+"->rib:"+s.inRule+"-used", fmt.Sprintf("a route with %s received from %s (%s) is in the Loc-RIB: %v, advertised to: %v", s.inRule, src.name, sk, used, holders), base(nil))
+			}
+			return 0
+		}
+		if !used {
+			if sk == refmodel.C09RSClient {
+				// a route-server client's route that no other client may take (AS loop towards each) is in no view; judged per target below
+			} else {
+				rec.Violation("e2e:c09:"+sk.String()+"->rib:wrongly-rejected:"+s.inRule, fmt.Sprintf("a route without loop indication from %s (%s) is not in the Loc-RIB", src.name, sk), base(nil))
+				return 0
+			}
 		}
 	}
 	// ---- every other neighbour
 	reached := 0
 	for _, dst := range sc.peers[1:] {
+		if sc.only != nil && !sc.only[dst.name] {
+			continue
+		}
+		if sc.only != nil {
+			rec.Count("e2e:c09:rehomed:judged:"+dst.kind().String(), 1)
+		}
 		if dst == src {
 			// never back to the source itself
 			if _, ok := views[dst.name][s.key]; ok {
@@ -543,7 +622,8 @@ func (sc *e2eC09Scenario) judge(src *e2eC09Peer, s *e2eC09Sent, views map[string
 		}
 		got, held := views[dst.name][s.key]
 		wit := func(extra map[string]any) map[string]any {
-			w := base(map[string]any{"target": dst.name, "target_spec": dst.spec.Describe(), "expected_decision": exp.Advertise.String(), "decision_rule": exp.AdvRule, "target_holds_route": held})
+			w := base(map[string]any{"target": dst.name, "target_spec": dst.spec.Describe(), "expected_decision": exp.Advertise.String(), "decision_rule": exp.AdvRule, "target_holds_route": held,
+				"target_session": map[bool]string{false: "first session", true: "re-established on another local address of the router"}[sc.only != nil]})
 			for k, v := range extra {
 				w[k] = v
 			}
